@@ -127,7 +127,7 @@ func setRaw(doc any, path []string, raw string, del bool) (any, bool) {
 
 // PropC13: no hook response, however malformed, can crash metacontroller or cause writes.
 func PropC13(c *vs.Case, f Factory, kind string) error {
-	scn := GenScn(c, GenOpts{Kind: kind, AllowRolling: kind == "composite", AllowFinalize: true, ClusterParent: 1})
+	scn := GenScn(c, GenOpts{Kind: kind, AllowRolling: kind == "composite", AllowFinalize: true})
 	scn.Cfg.SSA = false
 	scn.Prog.Ordered = false
 	scn.Cfg.Strict = c.Prob(1, 3)
